@@ -32,7 +32,7 @@ def smt_text(ob):
     return "(set-logic ALL)\n(set-option :produce-models true)\n" + txt + "(check-sat)\n" + gv, names
 
 def uses_strings(txt):
-    return "String" in txt or "str." in txt
+    return " String" in txt or "(str." in txt or "(re." in txt
 
 def _run(cmd, path, timeout):
     t0 = time.time()
@@ -43,6 +43,8 @@ def _run(cmd, path, timeout):
         return "timeout", "", time.time() - t0
     first = out.split("\n", 1)[0].strip() if out else ""
     if first == "timeout": return "timeout", out[:200], time.time() - t0
+    if first not in ("sat", "unsat", "unknown") and ("timeout" in out.lower() or "interrupted" in (out + p.stderr).lower()):
+        return "timeout", (out + p.stderr)[:200], time.time() - t0
     if first not in ("sat", "unsat", "unknown"):
         if "unsat" == first: pass
         return "error", (out + "\n" + p.stderr)[:2000], time.time() - t0
@@ -53,8 +55,14 @@ def solver_cmds(txt, timeout):
     z3n = ("z3-%s" % _z3_version(), [Z3_NEW, "-T:%d" % int(timeout), "-smt2"])
     z3o = ("z3-4.8.12", [Z3_OLD, "-T:%d" % int(timeout), "-smt2"])
     cvc = ("cvc5-1.0.3", [CVC5, "--lang=smt2", "--strings-exp", "--tlimit=%d" % ms, "--produce-models"])
+    z3e = ("z3-%s(e-matching)" % _z3_version(), [Z3_NEW, "-T:%d" % max(5, int(timeout / 3)), "smt.mbqi=false", "-smt2"])
     if uses_strings(txt):
-        return [cvc, z3n]
+        return [cvc, z3e, z3n]
+    cvce = ("cvc5-1.0.3(enum-inst)", [CVC5, "--lang=smt2", "--enum-inst", "--tlimit=%d" % int(ms / 2), "--produce-models"])
+    if "forall" in txt or "exists" in txt:
+        # pure E-matching first (stable for unsat proofs with quantifiers), then enumerative instantiation, then the complete configurations
+        z3e = (z3e[0], [Z3_NEW, "-T:%d" % max(5, int(timeout / 6)), "smt.mbqi=false", "-smt2"])
+        return [z3e, cvce, z3n, z3o]
     return [z3n, cvc, z3o]
 
 _zv = None
@@ -134,12 +142,17 @@ def solve_one(job, timeout, workdir):
     attempts = []
     want = ob.expect
     t_all = 0.0
-    for sname, cmd in solver_cmds(txt, timeout):
+    cmds = solver_cmds(txt, timeout)
+    if want == "sat":      # cover / vacuity query: only 'unsat' matters, keep it cheap
+        timeout = min(timeout, 8); cmds = solver_cmds(txt, timeout)[:2]
+    for sname, cmd in cmds:
         status, out, secs = _run(cmd, path, timeout)
         t_all += secs
         attempts.append((sname, status, round(secs, 3)))
         if status == "unsat":
             return Result(ob, "unsat", sname, t_all, raw=out, smt_path=path, attempts=attempts)
+        if status == "sat" and "e-matching" in sname:
+            continue      # without model-based instantiation a 'sat' is not trusted; ask the complete configuration
         if status == "sat":
             return Result(ob, "sat", sname, t_all, model=parse_values(out, names), raw=out[:4000], smt_path=path, attempts=attempts)
     gaveup = any(st_ == "unknown" and secs < timeout * 0.5 for _, st_, secs in attempts)
